@@ -213,7 +213,9 @@ def c19(tier):
 
 
 def c08(tier):
-    q = [_ob("H-results/2x1x1", "harness.h_results", "h_results", dict(runners=2, appends=1, rounds=1), **_HO),
+    q = [_ob("H-submit/rounds", H, "h_submit", dict(shapes=["chain3", "indep3"], bss=[1], maxns=[None, 1], fails=False, cancel_flags=False),
+             **_HO),
+         _ob("H-results/2x1x1", "harness.h_results", "h_results", dict(runners=2, appends=1, rounds=1), **_HO),
          _ob("H-results/1x2x2", "harness.h_results", "h_results", dict(runners=1, appends=2, rounds=2), **_HO)]
     if tier == "quick":
         return q
@@ -251,7 +253,7 @@ def obligations(prop, tier):
                                                              squeue_fault=True), **_HO)],
         "C07": lambda t: k_batch(t, deep=True) + h_submit(t) + h_dry(t) + [_ob("K-walltime", KC, "k_walltime", {})],
         "C08": c08,
-        "C09": lambda t: k_collect(t) + h_submit(t),
+        "C09": lambda t: k_collect(t) + h_submit(t) + [o for o in c13(t) if o["name"].startswith("H-resubmit")],
         "C10": lambda t: c10(t) + [o for o in c13(t) if o["name"].startswith("H-resubmit")][:1],
         "C11": c11,
         "C12": h_lost,
